@@ -124,13 +124,13 @@ func scenarioSched(c *vrun.Ctx) {
 					}
 				}
 				if p.ExpectLimit != 0 && r.limit != p.ExpectLimit {
-					c.Violation("C19/"+p.Name+"/cache-limit-not-latest", fmt.Sprintf("the cache ends up with limit %d although the most recent accepted value is %d: %s", r.limit, p.ExpectLimit, r.history()), x)
+					c.Violation(propOr(p.Prop, "C19")+"/"+p.Name+"/cache-limit-not-latest", fmt.Sprintf("the cache ends up with limit %d although the most recent accepted value is %d: %s", r.limit, p.ExpectLimit, r.history()), x)
 				}
 				if p.ExpectIntervalMs != 0 && r.interval != int64(p.ExpectIntervalMs)*1000000 {
-					c.Violation("C19/"+p.Name+"/cleanup-interval-not-latest", fmt.Sprintf("the janitor ends up with interval %dns although the most recent accepted value is %dms: %s", r.interval, p.ExpectIntervalMs, r.history()), x)
+					c.Violation(propOr(p.Prop, "C19")+"/"+p.Name+"/cleanup-interval-not-latest", fmt.Sprintf("the janitor ends up with interval %dns although the most recent accepted value is %dms: %s", r.interval, p.ExpectIntervalMs, r.history()), x)
 				}
 				if p.ExpectNotNotifiedAfterDestroy && r.limit == 900 {
-					c.Violation("C19/"+p.Name+"/notified-after-destroy", "a cache that had been destroyed was still notified of a later limit change: "+r.history(), x)
+					c.Violation(propOr(p.Prop, "C19")+"/"+p.Name+"/notified-after-destroy", "a cache that had been destroyed was still notified of a later limit change: "+r.history(), x)
 				}
 				for _, k := range p.ExpectPresent {
 					if _, ok := r.end.Retrievable[k]; !ok {
@@ -361,4 +361,13 @@ func (r *schedRun) overEvictions(target int64) []problem {
 		}
 	}
 	return out
+}
+
+// propOr: the limit/interval oracles are shared by C19 (components follow the latest setting) and
+// C13 (a limit or interval changed at run time governs the following cycles).
+func propOr(p, def string) string {
+	if p == "C13" || p == "C19" {
+		return p
+	}
+	return def
 }
